@@ -325,6 +325,13 @@ func (w *World) cfgJSON() map[string]interface{} {
 // (updates) received so far and how many of them failed; on UP4 also the updates since the previous line.
 func (w *World) dpObs(ev map[string]interface{}) {
 	if w.P4 == nil {
+		if w.LightDp {
+			_, wr, er := w.Bess.Counts()
+			ev["dp"], ev["cmds"], ev["errs"] = w.dpJSON(), wr, er
+
+			return
+		}
+
 		t := w.Bess.Snapshot()
 		ev["dp"] = w.dpJSON()
 		ev["cmds"] = t.Writes
@@ -592,6 +599,11 @@ func vm32(v, m uint64) []interface{} { return []interface{}{pfcpx.V32(v), pfcpx.
 func vm16(v, m uint64) []interface{} { return []interface{}{pfcpx.V16(v), pfcpx.V16(m)} }
 
 func (w *World) dpJSON() map[string]interface{} {
+	if w.LightDp && w.P4 == nil { // the tables are not part of what this history is judged by (histories with very many sessions)
+		e := []map[string]interface{}{}
+		return map[string]interface{}{"pdr": e, "far": e, "appQer": e, "sessQer": e, "slice": e}
+	}
+
 	t := w.Bess.Snapshot()
 	pdr := []map[string]interface{}{}
 
